@@ -2,7 +2,10 @@
 //! vAMM-level queries and the stored position — never from the engine query that shares code
 //! with the guard under test.
 use crate::big::Big;
+use crate::ops::*;
 use crate::world::*;
+use margined_perp::margined_engine as eng;
+use std::collections::BTreeMap;
 
 #[derive(Clone, Debug)]
 pub struct PosView {
@@ -138,4 +141,66 @@ pub fn bucket_ratio_distance(ratio: &Big, maint: u128) -> &'static str {
     } else {
         "far-above"
     }
+}
+
+
+/// The monitor's OWN funding checkpoints: the cumulative premium fraction at the last moment each
+/// position was observed to be settled (created, traded / withdrawn from / partially closed by its
+/// owner). Funding owed is computed against this record, not against the checkpoint stored in the
+/// position, which is part of what is being checked (a position whose stored checkpoint is not advanced
+/// after its funding was deducted would otherwise look as if it still owed that funding).
+#[derive(Default, Clone)]
+pub struct FundingShadow {
+    ck: BTreeMap<(usize, String), i128>,
+    pub divergences: u64,
+}
+
+impl FundingShadow {
+    pub fn begin(&mut self, s0: &Snap) {
+        self.ck.clear();
+        for p in &s0.pos {
+            self.ck.insert((p.vamm, p.trader.clone()), p.ckpt);
+        }
+    }
+    pub fn get(&self, vamm: usize, trader: &str) -> Option<i128> {
+        self.ck.get(&(vamm, trader.to_string())).cloned()
+    }
+    pub fn observe(&mut self, w: &World, st: &Step) {
+        let post = &st.post;
+        let gone: Vec<(usize, String)> = self.ck.keys().filter(|k| post.pos(k.0, &k.1).is_none()).cloned().collect();
+        for k in gone {
+            self.ck.remove(&k);
+        }
+        for p in &post.pos {
+            let key = (p.vamm, p.trader.clone());
+            let cum = post.vamms[p.vamm].cum_premium;
+            if st.pre.pos(p.vamm, &p.trader).is_none() {
+                // created by this transaction: nothing accrued before
+                self.ck.insert(key, cum);
+                continue;
+            }
+            if !st.out.ok {
+                continue;
+            }
+            if let Op::Engine { sender, msg, .. } = &st.op {
+                let on_this = st.op.engine_vamm().and_then(|a| w.vamm_idx(a)) == Some(p.vamm);
+                let settles = matches!(msg, eng::ExecuteMsg::OpenPosition { .. } | eng::ExecuteMsg::ClosePosition { .. } | eng::ExecuteMsg::WithdrawMargin { .. });
+                if on_this && settles && *sender == p.trader {
+                    self.ck.insert(key, cum);
+                }
+            }
+        }
+    }
+}
+
+/// position view whose funding checkpoint is the monitor's own record
+pub fn pos_view_sh(w: &World, snap: &Snap, vamm: usize, trader: &str, sh: &mut FundingShadow) -> Option<PosView> {
+    let mut v = pos_view(w, snap, vamm, trader)?;
+    if let Some(c) = sh.get(vamm, trader) {
+        if c != v.pos.ckpt && v.pos.size != 0 {
+            sh.divergences += 1;
+        }
+        v.pos.ckpt = c;
+    }
+    Some(v)
 }
